@@ -32,12 +32,20 @@ def _name_list(fn, e):
             v = inline_locals(fn, it)
             return unparse(v)
         return unparse(it)
+    if isinstance(e, ast.Call) and isinstance(e.func, ast.Name) and e.func.id in ("list", "tuple") and len(e.args) == 1:
+        return _name_list(fn, e.args[0])
+    if isinstance(e, ast.Call) and isinstance(e.func, ast.Name) and e.func.id in ("sorted", "reversed", "set", "frozenset") and e.args:
+        elt, it, how = _name_list(fn, e.args[0])
+        return elt, it, f"{how}, then re-ordered by {e.func.id}()"
+    if isinstance(e, ast.GeneratorExp) and len(e.generators) == 1 and not e.generators[0].ifs and isinstance(e.generators[0].target, ast.Name):
+        g = e.generators[0]
+        return unparse(e.elt).replace(g.target.id, "_SRC"), iter_text(g.iter), "generator"
     if isinstance(e, ast.Name):
         defs = [st for st in walk_no_nested(fn) if isinstance(st, ast.Assign) and len(st.targets) == 1 and isinstance(st.targets[0], ast.Name)
                 and st.targets[0].id == e.id]
         apps = [c for c in walk_no_nested(fn) if isinstance(c, ast.Call) and isinstance(c.func, ast.Attribute) and c.func.attr == "append"
                 and unparse(c.func.value) == e.id and len(c.args) == 1]
-        if len(defs) == 1 and isinstance(defs[0].value, (ast.ListComp,)):
+        if len(defs) == 1 and isinstance(defs[0].value, (ast.ListComp, ast.Call, ast.GeneratorExp)):
             return _name_list(fn, defs[0].value)
         if len(defs) == 1 and isinstance(defs[0].value, ast.List) and not defs[0].value.elts and len(apps) == 1:
             loop = enclosing(apps[0], ast.For)
@@ -77,8 +85,9 @@ def rule_submodule_contract(ctx, rep: Report, rid="Y2"):
                   and len(st.targets[0].elts) == 2 and isinstance(st.targets[0].elts[1], ast.Starred) and isinstance(st.targets[0].elts[1].value, ast.Name)
                   and unparse(st.value) == srcs}
     it_ok = it_txt in (f"{srcs}[1:]", f"list({srcs}[1:])", f"tuple({srcs}[1:])") or (popped and it_txt == srcs) or it_txt in rest_names
-    rep.add(rid, "main file:one initialiser per additional file, in order", it_ok,
-            f"names computed over `{it_txt}`", f"{ci.mod.rel}:{wrap.lineno}")
+    rep.add(rid, "main file:one initialiser per additional file, in order", it_ok and "re-ordered" not in how,
+            f"names computed over `{it_txt}` ({how}): the initialisers must be declared and called in the order the files were given - pybind11 "
+            f"registration is order-dependent (a base class before the classes derived from it)", f"{ci.mod.rel}:{wrap.lineno}")
     rep.add(rid, "main file:the submodule list reaches wrap_file", names_e is not None and elt_norm is not None,
             f"submodules={unparse(names_e) if names_e is not None else None}", f"{ci.mod.rel}:{wrap.lineno}")
     # 1b. what a file contributes besides the module definition does not depend on whether it is the main file:
